@@ -125,6 +125,17 @@ func deadlockOnResourceRead(plan []memstore.Fault, baseTrace []string) bool {
 	return false
 }
 
+func firedDeadlockOnResourceRead(trace []string) bool {
+	for _, t := range trace {
+		w := strings.Fields(t)
+		if len(w) >= 3 && w[len(w)-1] == "!deadlock" &&
+			(strings.HasPrefix(w[1], "Accounts.") || strings.HasPrefix(w[1], "Transactions.") || strings.HasPrefix(w[1], "Logs.")) {
+			return true
+		}
+	}
+	return false
+}
+
 func RunFaultsSQL(in wlctrl.FaultIn) (wlctrl.FaultOut, error) {
 	b, err := backend(12)
 	if err != nil {
@@ -155,7 +166,11 @@ func RunFaultsSQL(in wlctrl.FaultIn) (wlctrl.FaultOut, error) {
 		b.ClearFault()
 		cancel()
 		b.Quiesce()
-		out.Runs = append(out.Runs, wlctrl.FaultRun{Plan: plan, Fired: fired, Out: o})
+		// same deviation for a LATER fault of a multi-fault plan: its position counts the calls of the
+		// faulted run (after a retry), so it can only be recognised in that run's own trace
+		if !firedDeadlockOnResourceRead(o.Trace) {
+			out.Runs = append(out.Runs, wlctrl.FaultRun{Plan: plan, Fired: fired, Out: o})
+		}
 		if o.Delta.Empty() {
 			cur.restoreSequences()
 		} else {
